@@ -1,0 +1,75 @@
+//go:build verif
+
+package loadfile
+
+// Contracts for package loadfile, read by the govc verifier (build tag verif).
+// This file contains no executable code.
+//
+// Calls through the FileCache interface are resolved to *fileCache, with the
+// obligation that the receiver really is one.
+//@ dispatch FileCache *fileCache
+//
+//@ pred wfcache(fc FileCache) = typeis(fc, *fileCache) && fc.(*fileCache) != nil && fc.(*fileCache).files != nil
+//@ pred resolved(absDir string, f string) string = ite(fp_isabs(f), f, fp_join2(absDir, f))
+//
+//@ func NewFileCacheUsingContext
+//@   ensures [cache-or-error] result1 == nil ==> wfcache(result)
+//@   ensures [error-has-no-cache] result1 != nil ==> result == nil
+//@   ensures [root-is-absolute-context-dir] result1 == nil ==> result.(*fileCache).rootDir == fp_abs(rootDir)
+//@   ensures [same-keys] result1 == nil ==> (forall k string :: indom(result.(*fileCache).files, k) <==> indom(files, k))
+//@   ensures [paths-resolved-against-context] result1 == nil ==> (forall k string :: indom(files, k) ==> \
+//@        result.(*fileCache).files[k].ID == files[k] && result.(*fileCache).files[k].AbsolutePath == resolved(fp_abs(rootDir), files[k]))
+//@   loop 1 invariant [keys] forall k string :: indom(filesAbsPaths, k) <==> visited(k)
+//@   loop 1 invariant [subset] forall k string :: visited(k) ==> indom(files, k)
+//@   loop 1 invariant [entries] forall k string :: visited(k) ==> filesAbsPaths[k].ID == files[k] && filesAbsPaths[k].AbsolutePath == resolved(absDir, files[k])
+//
+//@ func NewFileCache
+//@   ensures [cache] wfcache(result) && result.(*fileCache).rootDir == rootDir
+//@   ensures [same-keys] forall k string :: indom(result.(*fileCache).files, k) <==> indom(fileContents, k)
+//@   ensures [contents] forall k string :: indom(fileContents, k) ==> result.(*fileCache).files[k].Content == fileContents[k] && result.(*fileCache).files[k].ID == k
+//@   loop 1 invariant forall k string :: indom(files, k) <==> visited(k)
+//@   loop 1 invariant forall k string :: visited(k) ==> indom(fileContents, k) && files[k].Content == fileContents[k] && files[k].ID == k
+//
+//@ func (*fileCache).LoadContext
+//@   requires fc != nil && fc.files != nil
+//@   ensures [all-read-or-error] result == nil ==> fc.files != nil && (forall k string :: indom(fc.files, k) <==> indom(old(fc.files), k))
+//@   ensures [paths-kept] result == nil ==> (forall k string :: indom(old(fc.files), k) ==> fc.files[k].ID == old(fc.files)[k].ID && fc.files[k].AbsolutePath == old(fc.files)[k].AbsolutePath)
+//@   ensures [root-kept] fc.rootDir == old(fc.rootDir)
+//@   loop 1 invariant forall k string :: indom(result, k) <==> visited(k)
+//@   loop 1 invariant forall k string :: visited(k) ==> indom(fc.files, k) && result[k].ID == fc.files[k].ID && result[k].AbsolutePath == fc.files[k].AbsolutePath
+//@   loop 1 invariant fc.files == old(fc.files) && fc.rootDir == old(fc.rootDir)
+//
+//@ func (*fileCache).RootDir
+//@   requires fc != nil
+//@   ensures result == fc.rootDir
+//@ func (*fileCache).Files
+//@   requires fc != nil
+//@   ensures result == fc.files
+//
+//@ func (*fileCache).GetByKey
+//@   requires fc != nil
+//@   ensures [found-iff-present] (result1 == nil) == indom(fc.files, fileKey)
+//@   ensures [found-entry] result1 == nil ==> result != nil && *result == fc.files[fileKey]
+//@   ensures [missing-has-no-entry] result1 != nil ==> result == nil
+//
+//@ func (*fileCache).AbsPathByKey
+//@   requires fc != nil
+//@   ensures (result1 == nil) == indom(fc.files, fileKey)
+//@   ensures result1 == nil ==> result == fc.files[fileKey].AbsolutePath
+//
+//@ func (*fileCache).ContentByKey
+//@   requires fc != nil
+//@   ensures (result1 == nil) == indom(fc.files, fileKey)
+//@   ensures result1 == nil ==> result == fc.files[fileKey].Content
+//
+//@ func (*fileCache).Contents
+//@   requires fc != nil
+//@   ensures [same-keys] forall k string :: indom(result, k) <==> indom(fc.files, k)
+//@   ensures [contents] forall k string :: indom(fc.files, k) ==> result[k] == fc.files[k].Content
+//@   loop 1 invariant forall k string :: indom(result, k) <==> visited(k)
+//@   loop 1 invariant forall k string :: visited(k) ==> indom(fc.files, k) && result[k] == fc.files[k].Content
+//
+//@ func MergeFileCaches
+//@   requires forall i int :: 0 <= i && i < len(fileCaches) ==> fileCaches[i] == nil || wfcache(fileCaches[i])
+//@   ensures [cache-or-error] result1 == nil ==> wfcache(result)
+//@   ensures [error-has-no-cache] result1 != nil ==> result == nil
